@@ -8,6 +8,7 @@ package interp
 // external or because they use "unsafe" or "reflect" operations.
 
 import (
+	"go/token"
 	"go/types"
 	"bytes"
 	"math"
@@ -268,6 +269,23 @@ func ext۰strings۰Index(fr *frame, args []value) value {
 
 func ext۰strings۰Replace(fr *frame, args []value) value {
 	// func Replace(s, old, new string, n int) string
+	if ss, ok := args[0].(symstr); ok {
+		// string with symbolic bytes: first occurrence of a concrete, non-empty old (n == 1), decided per position
+		old, ok1 := args[1].(string)
+		nw, ok2 := args[2].(string)
+		if !ok1 || !ok2 || old == "" || args[3].(int) != 1 {
+			panic("strings.Replace on a symbolic string: unsupported arguments")
+		}
+		for i := 0; i+len(old) <= len(ss); i++ {
+			if decideV(symStrBinop(token.EQL, normStr(append(symstr{}, ss[i:i+len(old)]...)), old)) {
+				out := append(symstr{}, ss[:i]...)
+				out = append(out, toSymStr(nw)...)
+				out = append(out, ss[i+len(old):]...)
+				return normStr(out)
+			}
+		}
+		return ss
+	}
 	s := args[0].(string)
 	old := args[1].(string)
 	new := args[2].(string)
